@@ -2,6 +2,7 @@
 from .sexp import *
 
 VARS = ['a', 'b', 'c', 'x', 'y', 'z']
+PARAM_VARS = ['n', 'acc', 'p', 'q', 'o1', 'more', 'm', 'e', 'cntv']
 
 class ProgGen:
     def __init__(self, rng, tick_p=0.3, err_p=0.03, max_depth=5, allow=None):
@@ -16,6 +17,13 @@ class ProgGen:
         self.allow = allow   # optional set of allowed form names
 
     def note(self, k): self.stats[k] = self.stats.get(k, 0) + 1
+
+    def all_vars(self):
+        out = list(VARS) + list(PARAM_VARS)
+        for k in range(1, self.fresh + 1):
+            for p in ('i', 's', 'l', 'e'):
+                out.append('%s%d' % (p, k))
+        return out
 
     def tick(self, e):
         if self.r.random() < self.tick_p:
@@ -86,8 +94,12 @@ class ProgGen:
         def cond():
             cl = []
             for _ in range(R.choice([1, 2, 3])):
-                cl.append([self.bool_e(env, d - 1), self.int_e(env, d - 1)])
-            cl.append([True, self.int_e(env, d - 1)])
+                x = R.random()
+                if x < 0.2: cl.append([self.tick(self.int_e(env, d - 1))])          # no body: test value
+                elif x < 0.3: cl.append([self.bool_e(env, d - 1)])
+                elif x < 0.4: cl.append([self.bool_e(env, d - 1), self.stmt(env, d - 1), self.int_e(env, d - 1)])
+                else: cl.append([self.bool_e(env, d - 1), self.int_e(env, d - 1)])
+            if R.random() < 0.8: cl.append([True, self.int_e(env, d - 1)])
             return ['cond'] + cl
         def length(): return ['length', self.list_e(env, d - 1)]
         def carl(): return [R.choice(['car', 'cadr', 'nth0']), self.intlist_e(env, d - 1)]
@@ -133,9 +145,23 @@ class ProgGen:
             v = R.choice(VARS + [self.fresh_var('e')]); acc = self.fresh_var('s')
             env2 = dict(env); env2[v] = 'int'; env2[acc] = 'int'
             return ['let', [[acc, 0]],
-                    ['dolist', [v, self.intlist_e(env, d - 1)] + ([acc] if R.random() < 0.3 else []),
+                    ['dolist', [v, (Q(Dot([1, 2], 3)) if R.random() < 0.04 else self.intlist_e(env, d - 1))] + ([acc] if R.random() < 0.3 else []),
                      ['setq', acc, ['+', acc, self.int_e(env2, d - 2)]]],
                     acc]
+        def collect():
+            i = R.choice(VARS + [self.fresh_var('i')]); acc = self.fresh_var('l')
+            env2 = dict(env); env2[i] = 'int'
+            loop = R.choice(['dotimes', 'dolist', 'while'])
+            item = R.choice([i, ['tick', 0, i], ['+', i, 1], ['list', i, i]])
+            if isinstance(item, list) and item[0] == 'tick': self.tick_id += 1; item[1] = self.tick_id
+            if loop == 'dotimes':
+                form = ['dotimes', [i, R.choice([0, 1, 2, 3, 4])], ['setq', acc, ['cons', item, acc]]]
+            elif loop == 'dolist':
+                form = ['dolist', [i, self.intlist_e(env, d - 1)], ['setq', acc, ['cons', item, acc]]]
+            else:
+                form = ['progn', ['setq', i, 0], ['while', ['<', i, R.choice([0, 2, 3])], ['setq', acc, ['cons', item, acc]], ['setq', i, ['1+', i]]]]
+                return ['let', [[acc, None], [i, 0]], form, ['length', acc], ['seq-reduce', Q('+'), ['mapcar', ['lambda', ['e'], ['if', ['consp', 'e'], ['car', 'e'], 'e']], acc], 0]]
+            return ['let', [[acc, None]], form, ['seq-reduce', Q('+'), ['mapcar', ['lambda', ['e'], ['if', ['consp', 'e'], ['car', 'e'], 'e']], acc], 0]]
         def evalq(): return ['eval', Q(self.int_e(env, d - 1))]
         def reduce_(): return ['seq-reduce', R.choice([Q('+'), FQ('+'), Q('max'), ['lambda', ['p', 'q'], ['+', 'p', 'q']]]), self.intlist_e(env, d - 1), self.int_e(env, d - 1)]
         def tickd(): self.tick_id += 1; return ['tick', self.tick_id, self.int_e(env, d - 1)]
@@ -143,7 +169,7 @@ class ProgGen:
                        (2, 'progn', progn), (2, 'cond', cond), (1, 'length', length), (1, 'car', carl),
                        (3, 'call', call), (1.5, 'funcall', funcall_lam), (1.5, 'setq', setq),
                        (1, 'when', whenunless), (1, 'and', andor), (1, 'while', loop_sum),
-                       (1, 'dotimes', dotimes), (1, 'dolist', dolist), (0.5, 'eval', evalq),
+                       (1, 'dotimes', dotimes), (1, 'dolist', dolist), (1, 'collect', collect), (0.5, 'eval', evalq),
                        (0.7, 'seq-reduce', reduce_), (2, '_tick', tickd)])
         if isinstance(e, list) and e and e[0] == 'nth0': e = ['nth', 0, e[1]]
         if isinstance(e, list) and e and e[0] in ('car', 'cadr') and False: pass
@@ -260,6 +286,7 @@ class ProgGen:
         kind = R.choice(['tail-if', 'tail-cond', 'nontail', 'tail-progn-let', 'tail-when'])
         base = ['tick', 9000 + idx, 'acc'] if R.random() < 0.3 else 'acc'
         step = R.choice([['+', 'acc', 'n'], ['+', 'acc', 1], ['*', 'acc', 1], ['+', 'n', 'acc']])
+        if R.random() < 0.6: step = ['tick', 9100 + idx, step]
         if kind == 'tail-if':
             body = ['if', ['<', 'n', 1], base, [name, ['-', 'n', 1], step]]
         elif kind == 'tail-cond':
